@@ -325,4 +325,160 @@ theorem specRun_append (pool : Pool) (es₁ es₂ : List Ev) : ∀ (l : Log),
   | nil => intro l; rfl
   | cons e es ih => intro l; simp only [List.cons_append, specRun]; exact ih _
 
+/-! ## Commands (c07.commands): the queue and Results.Record as writers of the entry -/
+
+theorem hrun_append (b : Int) (pool : Pool) (es₁ es₂ : List Ev) : ∀ (st : HState),
+    hrun b pool st (es₁ ++ es₂) = hrun b pool (hrun b pool st es₁) es₂ := by
+  induction es₁ with
+  | nil => intro st; rfl
+  | cons e es ih => intro st; simp only [List.cons_append, hrun]; exact ih _
+
+/-- every command-level event is exactly the writes `lower` lists -/
+theorem qstep_h (env : World) (st : QState) (e : QEv) :
+    (qstep env st e).h = hrun env.batchMax env.pool st.h (lower env st e) := by
+  unfold qstep
+  cases e with
+  | base b => cases b <;> rfl
+  | record r v n => rfl
+  | start m => rfl
+  | queue f => cases st.inQueue <;> cases f <;> rfl
+  | sync => rfl
+
+theorem qrun_h (env : World) (es : List QEv) : ∀ (st : QState),
+    (qrun env st es).h = hrun env.batchMax env.pool st.h (lowerRun env st es) := by
+  induction es with
+  | nil => intro st; rfl
+  | cons e es ih =>
+    intro st
+    simp only [qrun, lowerRun]
+    rw [ih, hrun_append, qstep_h]
+
+/-- a node in the queue is no candidate -/
+theorem queued_not_selected (env : World) (st : QState) (m : Method) (hq : st.inQueue = true) :
+    qselected env st m = false := by
+  unfold qselected hselected
+  cases st.h.sn with
+  | none => rfl
+  | some s => simp [selectedOn, newCandidateOn, envAt, qenv, hq]
+
+/-- without the queue's veto `GetCandidates` is the plain filter -/
+theorem qselected_hselected (env : World) (st : QState) (m : Method) (henv : env.inQueue = false)
+    (h : qselected env st m = true) : hselected env st.h m = true := by
+  cases hq : st.inQueue with
+  | true => rw [queued_not_selected env st m hq] at h; cases h
+  | false =>
+    unfold qselected at h
+    have : qenv env st = env := by
+      unfold qenv; cases env; simp_all
+    rw [this] at h; exact h
+
+def hmarked (st : HState) : Bool :=
+  match st.sn with
+  | some s => s.marked
+  | none => false
+
+/-- events that never release a mark: everything but the unmark and the removal of the objects -/
+def keepsMark : Ev → Bool
+  | .unmark | .claim none | .node none => false
+  | _ => true
+
+theorem hstep_keeps_mark (b : Int) (pool : Pool) (st : HState) (e : Ev) (hk : keepsMark e = true)
+    (hm : hmarked st = true) : hmarked (hstep b pool st e) = true := by
+  unfold hmarked at hm ⊢
+  cases hs : st.sn with
+  | none => simp [hs] at hm
+  | some s =>
+    simp only [hs] at hm
+    cases e with
+    | tick d => simp [hstep, hs, hm]
+    | claim oc =>
+      cases oc with
+      | some c => simp [hstep, hs, deliverClaim, hm]
+      | none => cases hk
+    | node on =>
+      cases on with
+      | some n => cases hnt : nodeTracked n <;> simp [hstep, hnt, hs, hm]
+      | none => cases hk
+    | mark => simp [hstep, hs]
+    | unmark => cases hk
+    | nominate => simp [hstep, hs, hm]
+    | podEvent =>
+      simp only [hstep, hs]
+      cases s.claim <;> simp [deliverClaim, hs, hm]
+    | reconcile f =>
+      simp only [hstep, hs]
+      cases s.claim <;> simp [deliverClaim, hs, hm]
+
+theorem hrun_keeps_mark (b : Int) (pool : Pool) (es : List Ev) : ∀ (st : HState),
+    (∀ e ∈ es, keepsMark e = true) → hmarked st = true → hmarked (hrun b pool st es) = true := by
+  induction es with
+  | nil => intro st _ h; exact h
+  | cons e es ih =>
+    intro st hk hm
+    simp only [hrun]
+    exact ih _ (fun e' he' => hk e' (List.mem_cons_of_mem _ he'))
+      (hstep_keeps_mark b pool st e (hk e List.mem_cons_self) hm)
+
+theorem marked_not_selected (env : World) (st : HState) (m : Method) (hm : hmarked st = true) :
+    hselected env st m = false := by
+  unfold hmarked at hm
+  unfold hselected
+  cases hs : st.sn with
+  | none => rfl
+  | some s =>
+    simp only [hs] at hm
+    simp [selectedOn, newCandidateOn, StateNode.validateNode, StateNode.markedForDeletion, hm]
+
+/-- command-level events that never release a mark -/
+def qkeepsMark : QEv → Bool
+  | .base e => keepsMark e
+  | .queue .replacementLost => false
+  | _ => true
+
+theorem syncEvs_keep (st : QState) : ∀ e ∈ syncEvs st, keepsMark e = true := by
+  intro e he
+  unfold syncEvs at he
+  cases h : apiClaim st <;> simp [h] at he
+  subst he; rfl
+
+theorem lower_keeps (env : World) (st : QState) (e : QEv) (hk : qkeepsMark e = true) :
+    ∀ b ∈ lower env st e, keepsMark b = true := by
+  intro b hb
+  cases e with
+  | base x =>
+    cases x <;> simp only [lower] at hb
+    all_goals (try (simp only [List.mem_singleton] at hb; subst hb; exact hk))
+    all_goals
+      rcases List.mem_append.mp hb with h | h
+      · split at h
+        · exact syncEvs_keep st b h
+        · cases h
+      · simp only [List.mem_singleton] at h; subst h; rfl
+  | record r v n => simp only [lower] at hb; split at hb <;> simp at hb; subst hb; rfl
+  | start m => simp only [lower] at hb; split at hb <;> simp at hb; subst hb; rfl
+  | queue f =>
+    simp only [lower] at hb
+    split at hb
+    · rename_i h; cases f <;> simp_all [qkeepsMark]
+    · cases hb
+  | sync => exact syncEvs_keep st b hb
+
+theorem qstep_keeps_mark (env : World) (st : QState) (e : QEv) (hk : qkeepsMark e = true)
+    (hm : hmarked st.h = true) : hmarked (qstep env st e).h = true := by
+  rw [qstep_h]
+  exact hrun_keeps_mark _ _ _ _ (lower_keeps env st e hk) hm
+
+theorem qrun_keeps_mark (env : World) (es : List QEv) : ∀ (st : QState),
+    (∀ e ∈ es, qkeepsMark e = true) → hmarked st.h = true → hmarked (qrun env st es).h = true := by
+  induction es with
+  | nil => intro st _ h; exact h
+  | cons e es ih =>
+    intro st hk hm
+    simp only [qrun]
+    exact ih _ (fun e' he' => hk e' (List.mem_cons_of_mem _ he'))
+      (qstep_keeps_mark env st e (hk e List.mem_cons_self) hm)
+
+theorem qmarked_not_selected (env : World) (st : QState) (m : Method) (hm : hmarked st.h = true) :
+    qselected env st m = false := marked_not_selected _ _ _ hm
+
 end Karp.CandidateHistory
